@@ -83,11 +83,11 @@ impl Check for IpGenHistories {
         "C15.ipgen"
     }
     fn rule(&self) -> String {
-        "generated: a pool (single range, subnet of any mask via new_sub, new_sub_no_ends, all(), none(); mass on tiny pools and on pools touching 0.0.0.0 / 255.255.255.255) followed by 1..40 operations block_subnet / fetch_ip / fetch_net(mask) / return_ip / return_subnet of held items; oracle: interval-set model (every fetched address or net lies in the configured pool, is free in the model i.e. not blocked and not overlapping anything held, has the requested mask and is aligned; fetch_ip returns None only when the model has no free address; returned items become free again; new_sub_no_ends(net) drained by fetch_ip yields exactly id+1..=broadcast-1). non-trivial: a fetch after a return into a fragmented free set, or a pool touching either end of the address space, or exhaustion reached. distinct: hash of decoded history".into()
+        "generated: a pool (single range, subnet of any mask via new_sub, new_sub_no_ends, all(), none(); mass on tiny pools and on pools touching 0.0.0.0 / 255.255.255.255) followed by 1..40 operations block_subnet / fetch_ip / fetch_net(mask) / return_ip / return_subnet of held items, return of one address out of a held net, return of an address that is free already; oracle: interval-set model (every fetched address or net lies in the configured pool, is free in the model i.e. not blocked and not overlapping anything held, has the requested mask and is aligned; fetch_ip returns None only when the model has no free address; returned items become free again; new_sub_no_ends(net) drained by fetch_ip yields exactly id+1..=broadcast-1). non-trivial: a fetch after a return into a fragmented free set, or a pool touching either end of the address space, or exhaustion reached. distinct: hash of decoded history".into()
     }
     fn assumptions(&self) -> Vec<String> {
         vec![
-            "only items currently held (as fetched) are returned, and block_subnet is never applied to a range overlapping a held item (after such a block the statement and the implementation's 'return makes available' rule would conflict)".into(),
+            "returns concern held items (whole or one address of a held net) or addresses that are free already; a whole item is not returned while a part it gave back earlier is held by somebody else; block_subnet is never applied to a range overlapping a held item (after such a block the statement and the implementation's 'return makes available' rule would conflict)".into(),
             "completeness (None only on exhaustion) is required for single addresses only; fetch_net may fail on a fragmented pool".into(),
         ]
     }
@@ -161,8 +161,10 @@ impl Check for IpGenHistories {
         };
         let touches_end = pool.0.first().map(|x| x.0 == 0).unwrap_or(false) || pool.0.last().map(|x| x.1 == u32::MAX).unwrap_or(false);
         let mut free = pool.clone();
-        let mut held: Vec<(u32, u32)> = vec![]; // (id, masklen)
+        // (id, masklen, the part of the item that has not been given back yet)
+        let mut held: Vec<(u32, u32, IntervalSet)> = vec![];
         let mut held_set = IntervalSet::default();
+        let mut odd_returns = false;
         let mut returned_since = false;
         let mut fetch_after_return_fragmented = false;
         let mut exhausted = false;
@@ -198,7 +200,7 @@ impl Check for IpGenHistories {
                             ensure!(!held_set.overlaps(x, x), "allocation", "double_allocation", "step {step}: fetch_ip returned {} which is still held ({:?})", fmt_ip(x), desc);
                             ensure!(free.contains_range(x, x), "allocation", "not_free", "step {step}: fetch_ip returned {} which is not free in the model", fmt_ip(x));
                             free.remove(x, x);
-                            held.push((x, 32));
+                            held.push((x, 32, IntervalSet(vec![(x, x)])));
                             held_set.add(x, x);
                             if returned_since && free.0.len() >= 2 {
                                 fetch_after_return_fragmented = true;
@@ -223,7 +225,7 @@ impl Check for IpGenHistories {
                             ensure!(!held_set.overlaps(id, bc), "allocation", "double_allocation", "step {step}: fetch_net(/{m}) returned {:?} overlapping a held item ({:?})", n, desc);
                             ensure!(free.contains_range(id, bc), "allocation", "not_free", "step {step}: fetch_net returned {:?} which is not free in the model", n);
                             free.remove(id, bc);
-                            held.push((id, m));
+                            held.push((id, m, IntervalSet(vec![(id, bc)])));
                             held_set.add(id, bc);
                             if returned_since && free.0.len() >= 2 {
                                 fetch_after_return_fragmented = true;
@@ -239,12 +241,51 @@ impl Check for IpGenHistories {
                     }
                 }
                 3 | 4 => {
+                    // returns: a held item as fetched (mostly), one address out of a held net (partial
+                    // return), or an address that is free already (spurious release, as a DHCP server
+                    // performs when a client releases an address it never leased)
+                    let kind = e.weighted(&[6, 2, 2]);
+                    if kind == 2 {
+                        if free.is_empty() {
+                            continue;
+                        }
+                        let iv = free.0[e.choose(free.0.len())];
+                        let x = iv.0 + e.choose(((iv.1 - iv.0) as usize).min(50) + 1) as u32;
+                        guard(|| gen.return_ip(a(x)))?;
+                        odd_returns = true;
+                        desc.push(format!("return_ip({}) although it is free", fmt_ip(x)));
+                        continue;
+                    }
                     if held.is_empty() {
                         continue;
                     }
                     let i = e.choose(held.len());
-                    let (id, m) = held.remove(i);
+                    if kind == 1 && held[i].1 < 32 && !held[i].2.is_empty() {
+                        // give back one address of a held net
+                        let iv = held[i].2 .0[e.choose(held[i].2 .0.len())];
+                        let x = iv.0 + e.choose(((iv.1 - iv.0) as usize).min(50) + 1) as u32;
+                        guard(|| gen.return_ip(a(x)))?;
+                        held[i].2.remove(x, x);
+                        held_set.remove(x, x);
+                        free.add(x, x);
+                        returned_since = true;
+                        odd_returns = true;
+                        desc.push(format!("return_ip({}) out of held {}/{}", fmt_ip(x), fmt_ip(held[i].0), held[i].1));
+                        continue;
+                    }
+                    let (id, m, remaining) = held[i].clone();
                     let bc = id | !mask_bits(m);
+                    // parts given back earlier must not be held by somebody else by now
+                    let mut given_back = IntervalSet(vec![(id, bc)]);
+                    for (l, h) in &remaining.0 {
+                        given_back.remove(*l, *h);
+                    }
+                    // ... nor blocked in the meantime
+                    if given_back.0.iter().any(|(l, h)| held_set.overlaps(*l, *h) || !pool.contains_range(*l, *h)) {
+                        ctx.excluded += 1;
+                        continue;
+                    }
+                    held.remove(i);
                     if m == 32 && e.bool() {
                         guard(|| gen.return_ip(a(id)))?;
                         desc.push(format!("return_ip({})", fmt_ip(id)));
@@ -252,7 +293,9 @@ impl Check for IpGenHistories {
                         guard(|| gen.return_subnet(Ipv4Net::new(a(id), Ipv4Mask::from_bitcount(m))))?;
                         desc.push(format!("return_subnet({}/{m})", fmt_ip(id)));
                     }
-                    held_set.remove(id, bc);
+                    for (l, h) in &remaining.0 {
+                        held_set.remove(*l, *h);
+                    }
                     free.add(id, bc);
                     returned_since = true;
                     // returned items are available again: a fetch of the same size must succeed now
@@ -276,6 +319,9 @@ impl Check for IpGenHistories {
         }
         if exhausted {
             ctx.class("exhaustion_reached");
+        }
+        if odd_returns {
+            ctx.class("partial_or_spurious_return");
         }
         if ctx.want_desc {
             ctx.desc = Some(json!({"history": desc}));
